@@ -13,7 +13,7 @@ import vlib
 from vlib import Violation, coq_Q
 
 import c15_agents as ag_level          # agent-level cases (IPPO / MADDPG / MATD3 / single-agent get_action)
-from c15_common import (build_space, leaf_lead_ok, make_obs_arrays, net_input_shape, np_dtype, ref_rows,
+from c15_common import (box_bounds, leaf_array, build_space, leaf_lead_ok, make_obs_arrays, net_input_shape, np_dtype, ref_rows,
                         space_shape, to_input, tensor_out, coq_space, coq_obs, coq_tq, coq_pobs, is_md_rank3,
                         TOL_NORM, uses_inexact_norm)
 
@@ -180,6 +180,49 @@ class C15(vlib.Driver):
                 sp = {"t": "mb", "n": rng.randint(1, 4)}
             lead = rng.choice(leads + [[rng.randint(1, 4)], [rng.randint(1, 3), rng.randint(1, 3)]])
             add(sp, lead, rng.choice(["numpy", "tensor"]), rng.random() < 0.8, pat=rng.randint(0, 60))
+        # ---- generator audit (deepening): branches / defaults / input kinds no earlier case reached
+        imgu8 = {"t": "box", "shape": [1, 2, 2], "dtype": "uint8", "low": 0, "high": 255}
+        for lead in [[], [2], [2, 3]]:
+            # default argument normalize_images (not passed), module function
+            cases.append({"kind": "prep", "space": imgu8, "lead": lead, "input": "numpy", "normalize": True, "nz_default": True, "pat": 0})
+            # -inf only in low (second guard of apply_image_normalization)
+            add({"t": "box", "shape": [1, 2, 2], "dtype": "float32", "low": "-inf", "high": 1}, lead, "numpy", True)
+            add({"t": "box", "shape": [1, 2, 2], "dtype": "float32", "low": "-inf", "high": 1}, lead, "tensor", False)
+            # pixels exactly at the bounds
+            add(imgu8, lead, "numpy", True, pat=99)
+        for sp in [{"t": "discrete", "n": 3}, {"t": "box", "shape": [], "dtype": "float32", "low": -1, "high": 1},
+                   {"t": "box", "shape": [], "dtype": "int64", "low": -5, "high": 5}]:
+            add(sp, [], "npscalar")                                       # numpy scalars go through the Number branch
+        for combo in [["d3", "v2"], ["img", "mb2"], ["md", "d1", "s0"]]:
+            fields = [[i, leafs[k]] for i, k in enumerate(combo)]
+            for lead in [[], [2], [2, 3]]:
+                for inp in ["tensor", "tensordict_cpu"]:                  # dict of tensors; TensorDict already on the device
+                    cases.append({"kind": "prep", "space": {"t": "dict", "fields": fields}, "lead": lead, "input": inp,
+                                  "normalize": True, "order": list(range(len(combo))), "pat": 3})
+            for lead in [[], [4]]:
+                cases.append({"kind": "vect", "space": {"t": "dict", "fields": fields}, "lead": lead, "input": "tensordict",
+                              "order": list(reversed(range(len(combo)))), "pat": 0})
+        # structural mismatches between observation and space (K only: both sides must reject / truncate alike)
+        for mis in ["leaf-for-dict", "dict-for-leaf", "leaf-for-tuple", "extra-key", "subset-keys", "tuple-short", "tuple-long"]:
+            for lead in [[], [2]]:
+                cases.append({"kind": "prep_mis", "mis": mis, "lead": lead})
+        # maybe_add_batch_dim called directly, numpy arrays and tensors, every rank relation incl. non-divisible views
+        for (shape, sshape) in [([3], [3]), ([2, 3], [3]), ([2, 2, 3], [3]), ([2, 2, 2, 3], [3]), ([], [3]), ([3], [2, 3]), ([], []),
+                                ([4], []), ([2, 3], []), ([2, 3, 5], [4]), ([2, 3, 4], [6]), ([2, 3, 4], [3, 4]), ([5, 2, 3, 4], [3, 4]),
+                                ([1, 1, 3], [3]), ([2, 3, 4], [4])]:
+            for inp in ["numpy", "tensor"]:
+                cases.append({"kind": "addbatch", "shape": shape, "sshape": sshape, "input": inp})
+        # apply_image_normalization called directly (numpy branch is not reachable through preprocess_observation)
+        for (lo, hi, dt) in [(0, 255, "uint8"), (-1, 1, "float32"), (0, 1, "float32"), (0, "inf", "float32"), ("-inf", 1, "float32"),
+                             ("per", "per", "float32")]:
+            for lead in [[], [2]]:
+                for inp in ["numpy", "tensor"]:
+                    cases.append({"kind": "norm", "space": {"t": "box", "shape": [1, 2, 2], "dtype": dt, "low": lo, "high": hi},
+                                  "lead": lead, "input": inp, "pat": 2})
+        # MultiBinary with several dimensions (pinned behaviour: batched as a rank-1 space; known finding)
+        for dims in ([[2, 3], [1, 2]] + ([[2, 2, 2], [3, 1]] if thorough else [])):
+            for lead in [[], [1], [2], [2, 3]]:
+                cases.append({"kind": "prep_mbnd", "dims": dims, "lead": lead, "input": "numpy"})
         cases += ag_level.generate(tier, rng)
         return cases
 
@@ -187,6 +230,14 @@ class C15(vlib.Driver):
     def run_impl(self, case):
         if case["kind"] in ag_level.KINDS:
             return ag_level.run_impl(case)
+        if case["kind"] in ("prep_mis", "addbatch", "norm"):
+            return _run_small(case)
+        if case["kind"] == "prep_mbnd":
+            from gymnasium import spaces as gsp
+            try:
+                return {"ok": tensor_out(case, preprocess_observation(_mbnd_obs(case), gsp.MultiBinary(case["dims"])))}
+            except Exception as e:
+                return {"err": type(e).__name__, "msg": str(e)[:200]}
         space = build_space(case["space"])
         arrays = make_obs_arrays(case)                       # numpy arrays (leaf / per member), with their row structure
         obs = to_input(case, arrays)
@@ -224,6 +275,12 @@ class C15(vlib.Driver):
     def coq_term(self, case, obs):
         if case["kind"] in ag_level.KINDS:
             return ag_level.coq_term(case, obs)
+        if case["kind"] in ("prep_mis", "addbatch", "norm"):
+            return _term_small(case, obs)
+        if case["kind"] == "prep_mbnd":
+            a = _mbnd_obs(case)
+            seen = f"(Some {coq_tq(obs['ok']['shape'], obs['ok']['data'])})" if "ok" in obs else "None"
+            return f"check_mbnd {_nats(case['dims'])} {coq_tq(list(a.shape), a.reshape(-1).tolist())} {seen}"
         arrays = make_obs_arrays(case)
         sp = coq_space(case["space"])
         o = coq_obs(case, arrays)
@@ -236,14 +293,39 @@ class C15(vlib.Driver):
         mdf = "true" if (is_md_rank3(case) and "ok" in obs) else "false"
         tol = TOL_NORM if uses_inexact_norm(case) else "0"
         seen = f"(Some {coq_pobs(case, obs['ok'])})" if "ok" in obs else "None"
-        return f"check_prep {mdf} {'true' if case['normalize'] else 'false'} {tol} {sp} {o} {seen}"
+        # rank-0 Box: repaired semantics (explicit feature axis, (B, 1)) iff the tree produces it
+        r0 = "true" if ("ok" in obs and _rank0_has_feature_axis(case, obs["ok"])) else "false"
+        return f"check_prep_r {r0} {mdf} {'true' if case['normalize'] else 'false'} {tol} {sp} {o} {seen}"
 
     # ---------- oracle: the property stated directly on the implementation's behaviour
     def oracle(self, case, obs):
         if case["kind"] in ag_level.KINDS:
             return ag_level.oracle(case, obs)
         out = []
-        lead = case["lead"]
+        lead = case.get("lead", [])
+        if case["kind"] in ("prep_mis", "addbatch"):
+            return out                                       # K only
+        if case["kind"] == "norm":
+            sp = case["space"]
+            arr = leaf_array(sp, lead, case["pat"]).astype(np.float64)
+            lo, hi = box_bounds(sp)
+            want = arr
+            if not (np.isinf(hi).any() or np.isinf(lo).any()) and not (np.all(hi == 1) and np.all(lo == 0)):
+                want = (arr - lo) / (hi - lo)
+            got = np.asarray(obs["ok"]["data"]).reshape(obs["ok"]["shape"]) if "ok" in obs else None
+            if got is None or got.shape != want.shape or not np.allclose(got, want, rtol=1e-6, atol=1e-7):
+                out.append(Violation("norm", "norm:direct", f"apply_image_normalization({case['input']}) wrong for bounds {sp['low']}..{sp['high']}: {obs}"[:400]))
+            return out
+        if case["kind"] == "prep_mbnd":
+            B = int(np.prod(lead)) if lead else 1
+            want = [B] + case["dims"]
+            if "err" in obs:
+                out.append(Violation("prep-total", "prep:mb-nd:raises", f"preprocess_observation raised {obs['err']}: {obs['msg']} for a "
+                                     f"MultiBinary({case['dims']}) observation with leading dims {lead}"))
+            elif obs["ok"]["shape"] != want and obs["ok"]["shape"] != [B, int(np.prod(case["dims"]))]:
+                out.append(Violation("prep-shape", "prep:mb-nd:shape", f"MultiBinary({case['dims']}) observation with leading dims {lead}: "
+                                     f"prepared shape {obs['ok']['shape']}, expected {want} (or flattened)"))
+            return out
         kind = case["space"]["t"]
         if case.get("bad") or len(lead) > 2 or (case.get("trail") and len(lead) == 2):
             return out                                       # outside the property's inputs ((T,E,1) columns, bad ranks/classes): K only
@@ -269,7 +351,10 @@ class C15(vlib.Driver):
         members = _members(case, obs["ok"])
         for name, leafspec, arr, got in members:
             want_shape = [B] + net_input_shape(leafspec)
-            if got["shape"] != want_shape:
+            rank0 = leafspec["t"] == "box" and leafspec["shape"] == []
+            # rank-0 Box: (B,) [space shape] and (B, 1) [encoder input: one feature] are both accepted here; whether the
+            # networks can consume it is decided by the agent-level batch cases
+            if got["shape"] != want_shape and not (rank0 and got["shape"] == [B, 1]):
                 out.append(Violation("prep-shape", f"prep:{site}:shape", f"member {name}: shape {got['shape']}, expected {want_shape} (lead {lead})"))
                 continue
             if got["dtype"] != "torch.float32":
@@ -292,12 +377,21 @@ class C15(vlib.Driver):
     def nontrivial(self, case, obs):
         if case["kind"] in ag_level.KINDS:
             return ag_level.nontrivial(case, obs)
+        if case["kind"] in ("prep_mbnd", "prep_mis", "norm"):
+            return len(case["lead"]) >= 1
+        if case["kind"] == "addbatch":
+            return len(case["shape"]) > len(case["sshape"])
         return len(case["lead"]) >= 1
 
     def classify(self, case, obs):
         if case["kind"] in ag_level.KINDS:
             return ag_level.classify(case, obs)
+        if case["kind"] in ("prep_mis", "addbatch", "norm"):
+            return [f"kind={case['kind']}", "result=" + ("ok" if "ok" in obs else "raises")] + \
+                   ([f"mismatch={case['mis']}"] if "mis" in case else []) + ([f"input={case['input']}"] if "input" in case else [])
         lead = case["lead"]
+        if case["kind"] == "prep_mbnd":
+            return ["kind=prep_mbnd", "space=mb-nd", "result=" + ("ok" if "ok" in obs else "raises")]
         lk = {0: "unbatched", 1: "batch-of-one" if lead == [1] else "batch", 2: "step-env", 3: "malformed-rank"}[len(lead)]
         if len(lead) == 2 and 1 in lead:
             lk = "step-env-with-1"
@@ -316,7 +410,7 @@ class C15(vlib.Driver):
         return labs
 
     def neighbours(self, case, rng):
-        if case["kind"] in ag_level.KINDS:
+        if case["kind"] in ag_level.KINDS or case["kind"] in ("prep_mbnd", "prep_mis", "addbatch", "norm"):
             return
         for lead in ([], [1], [2], [2, 3]):
             if lead != case["lead"]:
@@ -328,16 +422,125 @@ def _prep_callable(case, space):
     """the entry point under test: the module-level function, or agent.preprocess_observation of a real agent"""
     nz = case["normalize"]
     if "algo" not in case:
+        if case.get("nz_default"):
+            return lambda o: preprocess_observation(o, space)             # default argument
         return lambda o: preprocess_observation(o, space, normalize_images=nz)
+    nzarg = None if case.get("nz_default") else nz
     if "names" in case:                                    # multi-agent: the dict keys are the agent ids
         names = case["names"]
-        agent = ag_level.get_agent(case["algo"], case["space"]["fields"][0][1], names, nz)
+        spec = [f[1] for f in case["space"]["fields"]] if case.get("hetero") else case["space"]["fields"][0][1]
+        agent = ag_level.get_agent(case["algo"], spec, names, nzarg, case.get("variant"))
 
         def call(o):
             out = agent.preprocess_observation({names[int(k[1:])]: v for k, v in o.items()})
             return {f"k{names.index(n)}": v for n, v in out.items()}
         return call
-    return ag_level.get_agent(case["algo"], case["space"], None, nz).preprocess_observation
+    return ag_level.get_agent(case["algo"], case["space"], None, nzarg, case.get("variant")).preprocess_observation
+
+
+D3 = {"t": "discrete", "n": 3}
+V2 = {"t": "box", "shape": [2], "dtype": "float32", "low": -1, "high": 1}
+
+
+def _mis_setup(case):
+    """-> (gym space, python observation, Coq space term, Coq obs term) for a structural mismatch"""
+    from gymnasium import spaces as gsp
+    lead, mis = case["lead"], case["mis"]
+    a0, a1 = leaf_array(D3, lead, 1), leaf_array(V2, lead, 2)
+    tq0, tq1 = coq_tq(list(a0.shape), a0.reshape(-1).tolist()), coq_tq(list(a1.shape), a1.reshape(-1).tolist())
+    dsp, dsp_c = gsp.Dict({"k0": gsp.Discrete(3), "k1": gsp.Box(-1, 1, (2,))}), "(DictS [(0, Discrete 3); (1, Box [2] true [] [])])"
+    tsp, tsp_c = gsp.Tuple((gsp.Discrete(3), gsp.Box(-1, 1, (2,)))), "(TupleS [Discrete 3; Box [2] true [] []])"
+    if mis == "leaf-for-dict":
+        return dsp, a0, dsp_c, f"(OLeaf {tq0})"
+    if mis == "dict-for-leaf":
+        return gsp.Discrete(3), {"k0": a0}, "(Leaf (Discrete 3))", f"(ODict [(0, {tq0})])"
+    if mis == "leaf-for-tuple":
+        return tsp, a0, tsp_c, f"(OLeaf {tq0})"
+    if mis == "extra-key":
+        return dsp, {"k0": a0, "k7": a1}, dsp_c, f"(ODict [(0, {tq0}); (7, {tq1})])"
+    if mis == "subset-keys":
+        return dsp, {"k1": a1}, dsp_c, f"(ODict [(1, {tq1})])"
+    if mis == "tuple-short":
+        return tsp, (a0,), tsp_c, f"(OTuple [{tq0}])"
+    if mis == "tuple-long":
+        return tsp, (a0, a1, a1), tsp_c, f"(OTuple [{tq0}; {tq1}; {tq1}])"
+    raise ValueError(mis)
+
+
+def _run_small(case):
+    from agilerl.utils.algo_utils import maybe_add_batch_dim, apply_image_normalization
+    from c15_common import tensor1
+    try:
+        if case["kind"] == "prep_mis":
+            space, o, _, _ = _mis_setup(case)
+            out = preprocess_observation(o, space)
+            if isinstance(out, dict):
+                return {"ok": {"items": [[int(str(k)[1:]), tensor1(v)] for k, v in out.items()]}}
+            if isinstance(out, tuple):
+                return {"ok": {"items": [tensor1(v) for v in out]}}
+            return {"ok": tensor1(out)}
+        if case["kind"] == "addbatch":
+            n = int(np.prod(case["shape"])) if case["shape"] else 1
+            a = (np.arange(n, dtype=np.float32) - 3).reshape(case["shape"])
+            x = a if case["input"] == "numpy" else torch.from_numpy(a)
+            out = maybe_add_batch_dim(x, tuple(case["sshape"]))
+            return {"ok": tensor1(torch.as_tensor(out)), "type_kept": isinstance(out, type(x))}
+        if case["kind"] == "norm":
+            space = build_space(case["space"])
+            a = leaf_array(case["space"], case["lead"], case["pat"]).astype(np.float32)
+            x = a if case["input"] == "numpy" else torch.from_numpy(a)
+            out = apply_image_normalization(x, space)
+            return {"ok": tensor1(torch.as_tensor(np.asarray(out, dtype=np.float64) if isinstance(out, np.ndarray) else out))}
+    except Exception as e:
+        return {"err": type(e).__name__, "msg": str(e)[:200]}
+
+
+def _term_small(case, obs):
+    if case["kind"] == "prep_mis":
+        _, _, spc, oc = _mis_setup(case)
+        if "err" in obs:
+            seen = "None"
+        elif "items" in obs["ok"] and obs["ok"]["items"] and isinstance(obs["ok"]["items"][0], list):
+            seen = "(Some (PDict [" + "; ".join(f"({k}, {coq_tq(v['shape'], v['data'])})" for k, v in obs["ok"]["items"]) + "]))"
+        elif "items" in obs["ok"]:
+            seen = "(Some (PTuple [" + "; ".join(coq_tq(v["shape"], v["data"]) for v in obs["ok"]["items"]) + "]))"
+        else:
+            seen = f"(Some (PLeaf {coq_tq(obs['ok']['shape'], obs['ok']['data'])}))"
+        return f"check_prep_r false true true 0 {spc} {oc} {seen}"
+    if case["kind"] == "addbatch":
+        n = int(np.prod(case["shape"])) if case["shape"] else 1
+        data = (np.arange(n, dtype=np.float32) - 3).tolist()
+        seen = f"(Some {coq_tq(obs['ok']['shape'], obs['ok']['data'])})" if "ok" in obs else "None"
+        return f"check_addbatch {coq_tq(case['shape'], data)} {_nats(case['sshape'])} {seen}"
+    if case["kind"] == "norm":
+        if "err" in obs:
+            return "false"
+        sp = case["space"]
+        a = leaf_array(sp, case["lead"], case["pat"]).astype(np.float32)
+        lo, hi = box_bounds(sp)
+        bounded = not (np.isinf(hi).any() or np.isinf(lo).any())
+        los = "[" + "; ".join(coq_Q(x) for x in lo.reshape(-1)) + "]" if bounded else "[]"
+        his = "[" + "; ".join(coq_Q(x) for x in hi.reshape(-1)) + "]" if bounded else "[]"
+        tol = TOL_NORM if uses_inexact_norm({"space": sp, "normalize": True}) or case["input"] == "numpy" else "0"
+        return (f"check_norm {tol} {'true' if bounded else 'false'} {los} {his} {coq_tq(list(a.shape), a.reshape(-1).tolist())} "
+                f"{coq_tq(obs['ok']['shape'], obs['ok']['data'])}")
+
+
+def _nats(l):
+    return "[" + "; ".join(str(int(x)) for x in l) + "]"
+
+
+def _mbnd_obs(case):
+    shape = tuple(case["lead"]) + tuple(case["dims"])
+    i = np.arange(int(np.prod(shape)), dtype=np.int64)
+    return ((i + i // 3) % 2).astype(np.int8).reshape(shape)
+
+
+def _rank0_has_feature_axis(case, okobs):
+    for name, leaf, arr, got in _members(case, okobs):
+        if leaf["t"] == "box" and leaf["shape"] == []:
+            return len(got["shape"]) == 2
+    return False
 
 
 def _vect_kind(case):
